@@ -6,6 +6,7 @@ import (
 	"fmt"
 	"math"
 	"math/big"
+	"runtime/debug"
 	"strings"
 	"testing"
 
@@ -23,11 +24,11 @@ import (
 // ---------------------------------------------------------------- C05 (direct half)
 
 type deltaCase struct {
-	n          int64 // untainted equal-size nodes
-	cC, cM     int64 // node size (millicores, bytes)
-	rC, rM     int64 // total request
-	T          int64
-	cached     bool // from zero: a node size was observed earlier
+	n      int64 // untainted equal-size nodes
+	cC, cM int64 // node size (millicores, bytes)
+	rC, rM int64 // total request
+	T      int64
+	cached bool // from zero: a node size was observed earlier
 }
 
 func (c deltaCase) String() string {
@@ -45,6 +46,11 @@ var dummyNodes = func() []*v1.Node {
 // judgeDelta runs the two real arithmetic helpers and applies the exact oracle.
 // It returns "" (fine / not applicable) or a signature.
 func judgeDelta(c deltaCase) (sig, msg, class string) {
+	defer func() {
+		if r := recover(); r != nil { // a panic in the arithmetic produces no scale-up at all
+			sig, msg = "C05:panic-in-code-under-test", fmt.Sprintf("%v: panic: %v\n%s", c, r, debug.Stack())
+		}
+	}()
 	cpuReq, memReq := *resource.NewMilliQuantity(c.rC, resource.DecimalSI), *resource.NewQuantity(c.rM, resource.BinarySI)
 	cpuCap, memCap := *resource.NewMilliQuantity(c.n*c.cC, resource.DecimalSI), *resource.NewQuantity(c.n*c.cM, resource.BinarySI)
 	cpuPct, memPct, err := controller.VerifCalcPercentUsage(cpuReq, memReq, cpuCap, memCap, c.n)
@@ -210,7 +216,10 @@ func TestC05Random(t *testing.T) {
 		c.T = int64(rapid.IntRange(1, 200).Draw(rt, "T"))
 		c.cC = rapid.Int64Range(1, 1<<22).Draw(rt, "cC")
 		c.cM = rapid.Int64Range(1, 1<<40).Draw(rt, "cM")
-		if rapid.Bool().Draw(rt, "niceSizes") {
+		if rapid.IntRange(0, 9).Draw(rt, "tinySizes") == 0 { // a node reporting next to nothing (kubelet reserved almost everything)
+			c.cC = rapid.SampledFrom([]int64{1, 1, 2, 3, 9, 99}).Draw(rt, "cCtiny")
+			c.cM = rapid.SampledFrom([]int64{1, 2, 1000, 1 << 30}).Draw(rt, "cMtiny")
+		} else if rapid.Bool().Draw(rt, "niceSizes") {
 			c.cC = rapid.SampledFrom([]int64{1000, 2000, 3920, 7910, 16000, 96000, 192000}).Draw(rt, "cCnice")
 			c.cM = rapid.SampledFrom([]int64{1 << 30, 7 << 29, 16 << 30, 61 << 30, 768 << 30, 15_000_000_000}).Draw(rt, "cMnice")
 		}
@@ -593,7 +602,6 @@ func qs(q *genQty) string {
 	}
 	return q.s
 }
-
 
 // judgePercent compares a utilisation percentage with the exact rational 100*req/cap. Where
 // escalator's inputs are exactly representable in float64 (in its milli-units: scale 1 for
